@@ -75,8 +75,9 @@ theorem vw_stop {s s' : State} {id code : Nat} {b : Bool}
        first
         | exact f1
         | (have f2 := vw_freeRecvIf ‹State.freeRecvIf _ _ _ = some _›
+           have f2q := vw_queueMaxIf ‹State.queueMaxIf _ _ = some _›
            have f3 := vw_creditAndQueue ‹State.creditAndQueue _ _ = some _›
-           exact f3.trans (f2.trans ((vw_queueStopSending _ _ _ _).trans f1))))
+           exact f3.trans (f2q.trans (f2.trans ((vw_queueStopSending _ _ _ _).trans f1)))))
 
 theorem vw_recvReceivedReset {s s' : State} {id : Nat} {r : Option (Option Nat)}
     (h : s.recvReceivedReset id = some (s', r)) : s'.vw = s.vw := by
